@@ -390,8 +390,7 @@ def gen_pieces(rng, comments=False, liquid_comments=False):
             out.append(["sc", rng.choice([" note ", "", "- lead", " {% if %} {{ x }} ", "\n"]), rng.chance(30)])
         else:
             out.append(["text", rng.choice(texts)])
-    out = dp.normalize(out)
-    return [p for p in out if dp.piece_wf(p)]
+    return dp.normalize([p for p in dp.normalize(out) if dp.piece_wf(p)])
 
 
 def real_lex(d, src):
